@@ -152,13 +152,17 @@ def build(spec, upto=None, image=True):
     """Realise a spec through the public API. `upto` builds only the first `upto` optical surfaces."""
     from optiland.optic import Optic
     o = Optic()
-    o.add_surface(index=0, thickness=spec['obj'])
+    if spec.get('obj_mat') is not None:
+        o.add_surface(index=0, thickness=spec['obj'], material=make_material(spec['obj_mat']))
+    else:
+        o.add_surface(index=0, thickness=spec['obj'])
     surfs = spec['surfs'] if upto is None else spec['surfs'][:upto]
     for i, s in enumerate(surfs, start=1):
         o.add_surface(index=i, is_stop=bool(s.get('stop')), material=make_material(s['mat']),
                       thickness=s['t'], **surface_kwargs(s))
     if image:
-        o.add_surface(index=len(surfs) + 1, **surface_kwargs(spec.get('img', S())))
+        img = spec.get('img') or S()
+        o.add_surface(index=len(surfs) + 1, material=make_material(img.get('mat', 'air')), **surface_kwargs(img))
     configure(o, spec)
     return o
 
@@ -186,7 +190,7 @@ def configure(o, spec):
 
 
 def spec(surfs, obj=INF, ap=('EPD', 6.0), ftype='angle', fields=(0.0, 5.0), waves=((0.5876, True),), tele=False,
-         pol=None, img=None):
+         pol=None, img=None, obj_mat=None):
     d = dict(obj=obj, surfs=[copy.deepcopy(s) for s in surfs], ap=list(ap), ftype=ftype,
              fields=[[f, 0.0, 0.0] if isinstance(f, (int, float)) else list(f) for f in fields],
              waves=[list(w) for w in waves], tele=tele)
@@ -194,6 +198,8 @@ def spec(surfs, obj=INF, ap=('EPD', 6.0), ftype='angle', fields=(0.0, 5.0), wave
         d['pol'] = pol
     if img is not None:
         d['img'] = img
+    if obj_mat is not None:
+        d['obj_mat'] = obj_mat
     return d
 
 
